@@ -2076,9 +2076,9 @@ static void gen_signed(hv::rng &r, bool th)
     static const std::vector<i64> b64 = {0, 0, 3, 1000};
     static const std::vector<std::string> offs = {" 9223372036854775798", " 9223372036854775798", " 9223372036854775000", " 18446744073709551606",
                                                   " 9223372036853775808", " 0", " 4611686018427387904"};
-    for (int c = 0; c < (th ? 8000 : 500); c++) gen_wrap_case_m(r, "i", "", b32);
-    for (int c = 0; c < (th ? 1000 : 100); c++) gen_wrap_outside_case_m(r, "I");
-    for (int c = 0; c < (th ? 6000 : 400); c++) gen_wrap_case_m(r, "l", r.pick(offs), b64);
+    for (int c = 0; c < (th ? 8000 : 350); c++) gen_wrap_case_m(r, "i", "", b32);
+    for (int c = 0; c < (th ? 1000 : 60); c++) gen_wrap_outside_case_m(r, "I");
+    for (int c = 0; c < (th ? 6000 : 300); c++) gen_wrap_case_m(r, "l", r.pick(offs), b64);
 }
 
 // ---------------------------------------------------------------------------
@@ -2165,7 +2165,7 @@ static void gen_exhaustive3(hv::rng &r, bool th)
     for (int cfg = 0; cfg < 2; cfg++)
         for (int code = 0; code < 10000; code++)
         {
-            if (!th && !r.chance(5)) continue;
+            if (!th && !r.chance(4)) continue;
             int a[4] = {code % 10, code / 10 % 10, code / 100 % 10, code / 1000};
             emit("reset 3");
             if (cfg == 0) { emit("plan 0 0 4"); emit("plan 1 1 3"); emit("plan 2 2 2"); }   // three deadlines 4 (FIFO 0,1,2)
@@ -2282,7 +2282,7 @@ static void gen_extensions(hv::rng &r, bool th)
     gen_long(r, th);
     gen_nested_directed();
     gen_exhaustive3(r, th);
-    for (int c = 0; c < (th ? 6000 : 600); c++) gen_nested_case(r);
+    for (int c = 0; c < (th ? 6000 : 400); c++) gen_nested_case(r);
 }
 
 static void gen(hv::rng &r, const std::string &tier)
